@@ -166,6 +166,10 @@ fn err_kind(e: &LdapError) -> &'static str {
 
 pub fn run(tier: Tier) -> i32 {
     let rep = Reporter::new("C20", tier);
+    // the bounds that used to be the thorough tier's are cheap enough for every run
+    let deep = tier == Tier::Thorough;
+    let tier = Tier::Thorough;
+    let _ = deep;
     let evals = AtomicU64::new(0);
     let nontrivial = AtomicU64::new(0);
     let bases = ["", "dc=example,dc=com", "o=a?b", "cn=a b", "cn=é", "cn=a%b", "cn=a#b", "cn=100%25,o=x/y", "/c=US/o=Example", "//", " cn=sp "];
